@@ -30,6 +30,8 @@ partial def loopStateful {σ} (h : IO.FS.Stream) (out : IO.FS.Stream) (st : σ)
   | some (st', s) => out.putStrLn s; loopStateful h out st' f
   | none => out.putStrLn "bad-op"; loopStateful h out st f
 
+def loopsStep_loop (i o : IO.FS.Stream) : IO Unit := loopStateful i o ([] : LNodes) loopsStep
+
 def main (args : List String) : IO UInt32 := do
   let stdin ← IO.getStdin
   let stdout ← IO.getStdout
@@ -42,5 +44,6 @@ def main (args : List String) : IO UInt32 := do
   | ["filter"] => loopStateful stdin stdout ({ me := 0, inst := 0 } : Filter.Filt) filterStep; return 0
   | ["blockproof"] => loopStateless stdin stdout blockProofStep; return 0
   | ["trigger"] => loopStateful stdin stdout ({} : Trigger.Trig) triggerStep; return 0
+  | ["loops"] => loopsStep_loop stdin stdout; return 0
   | ["node"] => loopStateful stdin stdout ([] : Nodes) nodeStep; return 0
   | _ => IO.eprintln "usage: lhdriver <suite>"; return 2
